@@ -11,7 +11,8 @@ LEVEL = ("Static structural conditions of storage fidelity: variant coverage of 
          "decided by C16-R8 (R6); the worker hands the backend the stats / draw data / progress of the same expanded_draw call (R7). Cell-by-cell equality of stored values is not decided."
          " Added: the warm-up -> sampling switch of record_sample dominates every read of the draw's values (R8); no backend reaches around a BufWriter (R9)."
          " Added (round 4): per-dimension event counts of several chains are combined component-wise, never by ordering tuples (R12 = C15-R6 analysis)."
-         " Added (round 5): event counts reported by a backend with a phase flag depend on that flag (R13; decided F14); ArrowBuilder::append_value never appends a null, the ndarray draw axis is exactly num_tune + num_draws long (R14). A backend that names statistic dimensions from Settings::stat_dims_all takes their sizes from Settings::stat_dim_sizes (R15, sibling agreement; decided F17).")
+         " Added (round 5): event counts reported by a backend with a phase flag depend on that flag (R13; decided F14); ArrowBuilder::append_value never appends a null, the ndarray draw axis is exactly num_tune + num_draws long (R14). A backend that names statistic dimensions from Settings::stat_dims_all takes their sizes from Settings::stat_dim_sizes (R15, sibling agreement; decided F17)."
+         " Added (round 6): a builder setter of a storage configuration returns self with the named field set, never a rebuilt configuration (R16); the chunk grid of the Zarr arrays and the buffer length of the chains are one expression (R17 = C15-R12).")
 EXPLANATION = ("COVER analysis over HIR match arms, slice-based lane labels in new_trace, ITER classification of HashMap iterations, "
                "EFF read/write inventory of StorageConfig fields, SCHEMA flattening of the six Stats types.")
 TRUSTED = ["rustc nightly HIR/MIR", "nutsfacts extractor", "rules/c14.py, rules/schema.py"]
